@@ -502,7 +502,17 @@ def D12(p):
                         q.lines[i].lex[k].t = "x" + q.lines[i].lex[k].t[2:]
                         # keep the alignment column: nothing moves left of the name
                         return i
-                    yield "global", ap
+                    # site class by the shape of the declaration (the naming rule has to find the name behind all of them)
+                    ty = ln.info.get("type", "")
+                    words = ty.split(" ")
+                    utype = any(w.startswith("t_") or w in ("struct", "union", "enum") for w in words)
+                    form = "utype" if utype else "builtin"
+                    if words and (words[-1] in ("const", "volatile") or words[-1].startswith("*")):
+                        form += "-qualified"
+                    nxt = ln.lex[k + 1].t if k + 1 < len(ln.lex) else ""
+                    prv = ln.lex[k - 1].t if k else ""
+                    decl = "fptr" if prv == "*" and k >= 2 and ln.lex[k - 2].t == "(" else "array" if nxt == "[" else "ptr" if prv == "*" else "plain"
+                    yield "global:%s:%s" % (form, decl), ap
 
 
 # ---------------------------------------------------------------------------------------------
